@@ -182,6 +182,16 @@ SigCases ==
      \cup { History(L3, 1, <<KeygenStep(ListOf(<<<<"V", v7>>, <<"U">>, <<"U">>>>, 1), 0, 0), QualStep(1, ListOf(<<<<"V", v7>>, <<"V", FromNat(9)>>, <<"U">>>>, 1), 0, 4),
                               SignStep(2, ListOf(<<<<"V", v7>>, <<"V", FromNat(9)>>, <<"V", FromNat(5)>>>>, 1), One, 5), VerStep(ListOf(<<<<"V", v7>>, <<"V", FromNat(9)>>, <<"V", FromNat(5)>>>>, 1), 3, One),
                               VerStep(ListOf(<<<<"V", v7>>, <<"V", FromNat(9)>>, <<"U">>>>, 1), 3, One)>>, "sig", "after-qualify") }
+     \* lists whose entries carry the omitFromKeys flag: for signing and verification a list is (slot, identity) pairs, the flag concerns keys only.
+     \* Signed under the flagged list: verifies under it and under the same list without the flag, not under the list without the entry
+     \* (direct and precomputed forms); m >= r among the messages
+     \cup UNION { LET EE(i, v, o) == [idx |-> i, id |-> Pad(v, 32), omit |-> o]
+                      Lf == <<EE(0, v7, 0), EE(1, FromNat(9), 1)>>   Lp == <<EE(0, v7, 0), EE(1, FromNat(9), 0)>>   Ls == <<EE(0, v7, 0)>>
+                      Lf2 == <<EE(0, v7, 1), EE(2, FromNat(5), 1)>>
+                  IN { History(L3, 1, <<KeygenStep(ListOf(<<<<"V", v7>>, <<"U">>, <<"U">>>>, 1), 0, 0), SignStep(1, Lf, m, 4), VerStep(Lf, 2, m), VerStep(Lp, 2, m), VerStep(Ls, 2, m),
+                                         PreStep(Lf), SignPreStep(1, 6, Lf, m, 5), VerPreStep(6, 7, m), VerStep(Lp, 7, m), VerPreStep(6, 2, m),
+                                         SignStep(1, Lp, m, 6), VerStep(Lf, 11, m), VerStep(Lf2, 11, m), SignStep(1, Lf2, m, 7), VerStep(Lf2, 14, m)>>, "sig", "flagged-list") }
+                : m \in { One, Add(RMod, FromNat(5)) } }
 
 \* ---- family "adjust" (C14) -------------------------------------------------------------------------------------------------
 AdjLists == AllLists(L3, IF Tier = "quick" THEN { FromNat(9), FromNat(3) } ELSE { FromNat(9), FromNat(3), Sub(Pow2(256), One), Zero, Add(RMod, FromNat(3)) })
@@ -208,6 +218,15 @@ AdjustChains ==
     : a \in { ListOf(<<<<"V", FromNat(9)>>, <<"U">>, <<"V", FromNat(3)>>>>, 1) },
       b \in { ListOf(<<<<"U">>, <<"V", FromNat(3)>>, <<"U">>>>, 1), ListOf(<<<<"V", FromNat(3)>>, <<"U">>, <<"V", FromNat(3)>>>>, 1) },
       c \in { <<>>, ListOf(<<<<"V", FromNat(9)>>, <<"V", FromNat(9)>>, <<"V", FromNat(9)>>>>, 1), ListOf(<<<<"V", Sub(Pow2(256), One)>>, <<"H">>, <<"V", Zero>>>>, 1) } }
+
+\* signatures through an adjusted precomputation against the direct forms, messages below and above r: all five routes give one verdict
+AdjustSig ==
+  LET v7 == FromNat(7)
+      L0 == ListOf(<<<<"V", v7>>, <<"U">>, <<"V", FromNat(3)>>>>, 1)
+      L1 == ListOf(<<<<"V", v7>>, <<"V", FromNat(9)>>, <<"U">>>>, 1)
+  IN { History(L3, 1, <<KeygenStep(ListOf(<<<<"V", v7>>, <<"U">>, <<"U">>>>, 1), 0, 0), PreStep(L0), AdjPreStep(2, L0, L1), SignPreStep(1, 3, L1, m, 5), VerPreStep(3, 4, m),
+                         VerStep(L1, 4, m), SignStep(1, L1, m, 6), VerPreStep(3, 7, m), PreStep(L1), VerPreStep(9, 4, m), VerStep(L1, 7, m), VerPreStep(9, 7, OtherMsg(m))>>, "adjust", "sig-routes")
+       : m \in { One, Add(RMod, FromNat(5)), Sub(Pow2(256), One) } }
 
 \* ---- family "inplace" (C18, C interface of the scheme): the output key object is the input key object ------------------------
 \* every history is emitted twice (inplace = 0 / 1) with the same pair id; the steps' meaning does not depend on the flag
@@ -238,7 +257,7 @@ Cases == CASE Family = "deleg" -> LET ds == Thinned(SetToSeq(DelegDescs) \o SetT
            [] Family = "neg" -> Thinned(SetToSeq(NegCases(1)))
            [] Family = "sig" -> Thinned(SetToSeq(SigCases))
            [] Family = "inplace" -> Thinned(InplaceCases)
-           [] OTHER -> LET ds == Thinned(SetToSeq(AdjustDescs)) IN [k \in 1..Len(ds) |-> BuildAdjust(ds[k])] \o SetToSeq(AdjustChains)
+           [] OTHER -> LET ds == Thinned(SetToSeq(AdjustDescs)) IN [k \in 1..Len(ds) |-> BuildAdjust(ds[k])] \o SetToSeq(AdjustChains) \o (IF Shard = 0 THEN SetToSeq(AdjustSig) ELSE <<>>)
 ASSUME PrintT(<<"cases", Len(Cases)>>)
 ASSUME ndJsonSerialize(IOEnv.OUT, Cases)
 =============================================================================
